@@ -219,13 +219,13 @@ def hyper(ctx, a_s, b_s, z, **kwargs):
         if   q == 1: return ctx._hyp0f1(b_s, z, **kwargs)
         elif q == 0: return ctx.exp(z)
     elif p == 1:
-        if   q == 1: return ctx._hyp1f1(a_s, b_s, z, **kwargs)
-        elif q == 2: return ctx._hyp1f2(a_s, b_s, z, **kwargs)
+        if   q == 1: return +ctx._hyp1f1(a_s, b_s, z, **kwargs)
+        elif q == 2: return +ctx._hyp1f2(a_s, b_s, z, **kwargs)
         elif q == 0: return ctx._hyp1f0(a_s[0][0], z)
     elif p == 2:
         if   q == 1: return ctx._hyp2f1(a_s, b_s, z, **kwargs)
-        elif q == 2: return ctx._hyp2f2(a_s, b_s, z, **kwargs)
-        elif q == 3: return ctx._hyp2f3(a_s, b_s, z, **kwargs)
+        elif q == 2: return +ctx._hyp2f2(a_s, b_s, z, **kwargs)
+        elif q == 3: return +ctx._hyp2f3(a_s, b_s, z, **kwargs)
         elif q == 0: return ctx._hyp2f0(a_s, b_s, z, **kwargs)
     elif p == q+1:
         return ctx._hypq1fq(p, q, a_s, b_s, z, **kwargs)
